@@ -52,6 +52,9 @@ Exec(I, st, failAt) ==
               IN [st EXCEPT !.ds = Append(PopN(ds, a), v)]
     [] I.i \in BinIns -> IF n < 2 THEN RunErr(st)
                          ELSE [st EXCEPT !.ds = Append(PopN(ds, 2), Bin(BinOfIns(I.i), ds[n - 1], ds[n]))]
+    [] I.i = "union" -> IF n < 2 THEN RunErr(st)
+                        ELSE IF ds[n].t = "abs" /\ ds[n - 1].t = "abs" THEN [st EXCEPT !.ds = Append(PopN(ds, 2), VAbsent)]
+                        ELSE RunErr(st)          \* a literal, number or leaf-list is not a node-set
     [] I.i = "negate" -> IF n < 1 THEN RunErr(st) ELSE [st EXCEPT !.ds = Append(PopN(ds, 1), NegV(ds[n]))]
     [] I.i = "eq" ->
          IF n < 2 THEN RunErr(st)
